@@ -26,6 +26,8 @@ def run(ctx):
     # the same through GDB mode (`wl ...` commands typed while the program is halted, messages arriving as closures)
     from props import gdbbase
     gdbbase.gdb_batch(ctx, rep, relevant('C11'), ctx.pick(40, 400), 1000333)
+    # ... and as a real process in file mode
+    sessbase.process_batch(ctx, rep, ['msg', 'counts', 'none', 'info'], ctx.pick(12, 120), 1000409)
     return rep
 
 
